@@ -48,6 +48,8 @@ FAULTS_SPECIAL = [
     ('missing-attribute/inherited-bare-name-on-relation', 'It is prohibited that a node N is assigned with name N to a color C.', 'name'),
     ('missing-attribute/inherited-bare-name-on-concept', 'It is prohibited that there is an assignment with id X.', 'id'),
     ('missing-attribute/inherited-bare-name-on-concept', 'It is prohibited that there is an assignment with name X.', 'name'),
+    # found only by a delayed command (duration clause): the unit is no attribute of the new relation
+    ('missing-attribute/duration-unit', 'Whenever there is a worker W, then W can have a spot with time T in exactly 1 node N for 2 minutes.', 'minutes'),
     ('undeclared-set', 'It is prohibited that X is equal to 1, whenever there is an element X in ghostset.', 'ghostset'),
 ]
 PAD = ['', '// padding comment', '', '/* block */']
